@@ -530,6 +530,11 @@ def run(ctx):
     tsec["direct_tree"] = time.time() - t0
     t0 = time.time()
     # ---- (b) standard training + coefficient optimisation
+    # levels 2..4 without regularisation: the error-weighted raw coefficient sum of option 3 is NEGATIVE for these data sets (seed C20_6 normalised by |sum|)
+    for sd in ((3,) if quick else (3, 7, 11)):
+        case = {"kind": "train", "d": 2, "lam": 0.0, "matrix": "C", "p_test": 0.2, "lmin": 2, "lmax": 4, "data": {"kind": "plain", "M": 80, "seed": sd}, "options": [3]}
+        ctx.case(case)
+        case_train(ctx, case)
     n_train = 30 if quick else 300
     for k in range(n_train):
         if ctx.out_of_time(0.8):
